@@ -4,14 +4,16 @@ import sys
 from pathlib import Path
 
 sys.path.insert(0, str(Path(__file__).resolve().parents[1]))
+from ephverif import srcextract as sx  # noqa: E402
 from ephverif.paths import BUILD, REPO  # noqa: E402
 
 ID = "C31"
 FAMILY = "filename"
 GEN = BUILD / "gen"
 HARNESS_FLAGS = ("-I", str(GEN))
-RULE = ("the three sanitisers -- the `eph fetch` lambda (src/main.cpp), the store_chunk lambda (src/core/Node.cpp), both "
-        "extracted textually from the current source by brace matching and compiled into the harness, and "
+RULE = ("three paths -- (1) the directory branch of `eph fetch` (the whole block from the manifest's filename to "
+        "resolved_output /= name, copied verbatim from the current src/main.cpp by brace matching and compiled into the "
+        "harness), (2) the real Node::store_chunk, reading the filename recorded in the manifest it returns, and (3) "
         "security::sanitize_filename_hint -- on filename strings: traversal sequences (../, ..\\, /.., ....//), every "
         "single byte 0..255 alone / as prefix / as suffix, separators and reserved characters in every position of short "
         "names, '.', '..', '...', empty, trailing slashes, names of 254..300 bytes, non-UTF-8. Also the real "
@@ -22,47 +24,38 @@ RULE = ("the three sanitisers -- the `eph fetch` lambda (src/main.cpp), the stor
 ASSUMPTIONS = ["POSIX std::filesystem::path::filename() = suffix after the last '/'; std::iscntrl in the C locale = "
                "bytes 0..31 and 127 (both exercised by the correspondence on every byte value)",
                "the fallback names (chunk id hex, chunk_<microseconds>) are hex digits / digits / '_' by construction (read, not modelled)"]
-TRUSTED = ["extraction: ExtrOcamlBasic only", "tools/props/C31.py lambda extractor (brace matching)", "harness/impl_filename.cpp"]
+TRUSTED = ["extraction: ExtrOcamlBasic only", "tools/props/C31.py block extractor (brace matching) for the fetch branch", "harness/impl_filename.cpp"]
 TIMEOUT = 600
 RESERVED = b'/\\:*?"<>|'
 
 
-def _lambda(text, start_pat):
-    m = re.search(start_pat, text)
-    if not m:
-        raise RuntimeError(f"sanitize_filename lambda not found: {start_pat}")
-    i = text.index("[", m.start())
-    j = text.index("{", i)
-    depth, k = 0, j
-    while True:
-        if text[k] == "{":
-            depth += 1
-        elif text[k] == "}":
-            depth -= 1
-            if depth == 0:
-                break
-        k += 1
-    return text[i:k + 1]
-
-
 def prebuild():
+    """Copy the directory branch of `eph fetch` (the block that turns the manifest's filename into the output path) verbatim
+    from the current src/main.cpp into a function the harness can call.  The store side needs no extraction: the harness
+    calls the real Node::store_chunk and reads the filename recorded in the manifest it returns."""
     GEN.mkdir(parents=True, exist_ok=True)
     main = (REPO / "src/main.cpp").read_text(errors="replace")
-    node = (REPO / "src/core/Node.cpp").read_text(errors="replace")
-    fetch = _lambda(main, r"auto\s+sanitize_filename\s*=\s*\[\]\s*\(const std::string&\s*candidate\)")
-    store = _lambda(node, r"auto\s+sanitize_filename\s*=\s*\[\]\s*\(std::string\s+value\)")
-    # the statements that follow the store lambda (filename(), resize) are reproduced in the harness from this capture
-    mm = re.search(r"constexpr std::size_t kMaxSuggestedNameLength = (\d+);\s*std::filesystem::path candidate\(\*original_name\);"
-                   r"\s*auto base = sanitize_filename\(candidate\.filename\(\)\.string\(\)\);\s*if \(!base\.empty\(\)\) \{\s*"
-                   r"if \(base\.size\(\) > kMaxSuggestedNameLength\) \{\s*base\.resize\(kMaxSuggestedNameLength\);\s*\}", node)
-    if not mm:
-        raise RuntimeError("store_chunk filename post-processing changed shape")
+    block = None
+    for m in re.finditer(r"if\s*\(\s*treat_as_directory\s*\)\s*\{", main):
+        j = main.index("{", m.start())
+        e = sx.match_brace(main, j)
+        body = main[m.start():e + 1]
+        if "inferred_name" in body and "resolved_output" in body:
+            block = body
+            break
+    if block is None:
+        raise RuntimeError("the `if (treat_as_directory) { ... resolved_output /= inferred_name; }` block of eph fetch was not found")
     content = ("// GENERATED from the current sources of the repository by tools/props/C31.py -- not committed\n"
-               "#pragma once\n#include <algorithm>\n#include <cctype>\n#include <filesystem>\n#include <string>\n"
-               f"static const auto gen_fetch_sanitize = {fetch};\n"
-               f"static const auto gen_store_sanitize_inner = {store};\n"
-               f"static constexpr std::size_t gen_store_max = {mm.group(1)};\n")
-    out = GEN / "c31_sanitize.hpp"
+               "#pragma once\n#include <algorithm>\n#include <cctype>\n#include <chrono>\n#include <filesystem>\n#include <optional>\n#include <string>\n"
+               "#include \"ephemeralnet/Types.hpp\"\n#include \"ephemeralnet/protocol/Manifest.hpp\"\n"
+               "static std::filesystem::path gen_fetch_resolve(const std::filesystem::path& destination,\n"
+               "        const std::optional<ephemeralnet::protocol::Manifest>& decoded_manifest, bool use_manifest_name) {\n"
+               "    struct { bool fetch_use_manifest_name; } options{use_manifest_name};\n"
+               "    const bool treat_as_directory = true;\n"
+               "    std::filesystem::path resolved_output = destination;\n"
+               "    " + block + "\n"
+               "    return resolved_output;\n}\n")
+    out = GEN / "c31_fetch.hpp"
     if not out.exists() or out.read_text() != content:
         out.write_text(content)
 
@@ -77,6 +70,10 @@ def generate(rng, tier):
              b"/..", b"\\", b"a\\..\\b", b"C:\\x", b"x\x00y", b"\x7f", b"a\x7f\x1fb", b".\x01", b".\x7f.", b"\x01.\x02.\x03",
              b"a" * 254, b"a" * 255, b"a" * 256, b"b" * 300, b"/" + b"c" * 300, b"\xff\xfe", b"\xc3\xa9.txt", b"d/" + b"\x01" * 5,
              b".\x00.", b"..\x00", b"x" * 254 + b"\x01y", b"x" * 255 + b"/"]
+    # names that only become dangerous if something decodes them after sanitising (percent escapes, C escapes, entities)
+    names += [b"..%2Fescaped.txt", b"%2E%2E%2F%2E%2E%2Fx", b"%2e%2e", b"%2E", b"sub%2fdir%2fn.txt", b"a%5Cb", b"bell%07.txt",
+              b"pipe%7Ccolon%3A.txt", b"nul%00.txt", b"%2F", b"..%252Fx", b"\\x2e\\x2e\\x2fx", b"&#47;etc", b"&sol;x", b"a+b%20c",
+              b"%c0%af", b"%uff0f", b"..%c0%afx"]
     for b in range(256):
         names += [bytes([b]), b"ab" + bytes([b]), bytes([b]) + b"cd", b"." + bytes([b]), bytes([b]) + b"."]
     for c in RESERVED:
